@@ -354,6 +354,19 @@ Definition exec_named (cfg : config) (th : thresholds) (lg : logger) (sv : sev) 
   let '(st, ev) := stream_puts (make_stream cfg th lg sv tag) its in
   ev ++ stream_destroy cfg lg sv st.
 
+(* the same with the stream object moved into another variable half-way:
+     { auto s = L::sv(tag); s << pre…; auto t = std::move(s); t << post…; }     t is declared later, so it is destroyed first *)
+Definition exec_named_moved (cfg : config) (th : thresholds) (lg : logger) (sv : sev) (tag : option str)
+           (pre post : list item) : list event :=
+  let '(st1, e1) := stream_puts (make_stream cfg th lg sv tag) pre in
+  match st1 with
+  | SNull => e1 ++ snd (stream_puts SNull post)
+  | SSmart x =>
+      let '(t, s') := ss_move x in
+      let '(st2, e2) := stream_puts (SSmart t) post in
+      e1 ++ e2 ++ stream_destroy cfg lg sv st2 ++ ss_destroy cfg lg sv s'
+  end.
+
 Inductive op :=
 | OSet (rc k : nat) (s : sev)                                          (* severity_filter<Record rc, k>::set_severity(s) *)
 | OOne (c : sctx) (lg : logger) (sv : sev) (tag : option str) (its : list item)     (* L::sv(tag) << its…;   executed in context c *)
